@@ -259,6 +259,20 @@ CHECKS = {
         "Hypothesis schedule/fault plans against a simulated NCP on a virtual clock; reference outcome function + frame-log invariants",
         "DESIGN.md 4/C12",
     ),
+    "C14": (
+        "exploration",
+        "write_network_info() followed by load_network_info(load_devices=True) on a real ControllerApplication against a "
+        "stateful simulated NCP (reset with version re-negotiation, leave, form, stack-status callbacks, initial/current "
+        "security state, key export in the pre-v13 and v13/v14 forms, link-key table, child table, NV3 and manufacturing "
+        "tokens) for every protocol version 4..14 with Hypothesis-generated network/node information and NCP capabilities. "
+        "Read-back must equal what was written for PAN, extended PAN, channel, mask, update id, network key and sequence, "
+        "frame counter (v5+), trust-centre link key incl. the hashed form, link keys as a set of (partner, key), children and "
+        "their NWK addresses (v9+); the setInitialSecurityState argument the simulator recorded must carry exactly the given "
+        "keys with presence flags matching the supplied fields.",
+        "Simulator semantics (vlib/netsim.py) are assumptions about firmware behaviour listed in the evidence; application built with the Requests shim.",
+        "Hypothesis round-trip through a stateful simulated NCP (write then read back); field-by-field equality + recorded-argument checks",
+        "DESIGN.md 4/C14",
+    ),
 }
 
 NOT_YET = "check not built yet in this session (planned, see DESIGN.md section 4)"
